@@ -464,7 +464,7 @@ fault("c14-request-counter", "C14", "R14a", (HM, "    global handlers, rootpath\
 fault("c14-mimetypes-on-request", "C14", "R14a", (GE, "        mimetype, encoding = mimetypes.guess_type(self.selector, strict=False)\n", "        mimetypes.types_map.update({\".gmi\": \"text/gemini\"})\n        mimetype, encoding = mimetypes.guess_type(self.selector, strict=False)\n"))
 fault("c14-class-level-list", "C14", "R14a", (GMAP, 'class BuckGophermapHandler(BaseHandler):\n    """Bucktooth selector handler.  Adheres to the specification\n    at gopher://gopher.floodgap.com:70/0/buck/dbrowse%3Ffaquse%201"""\n', 'class BuckGophermapHandler(BaseHandler):\n    """Bucktooth selector handler."""\n\n    entries = []\n'), (GMAP, "        self.entries = []\n\n        selectorbase", "        selectorbase"))
 twin("c14-twin-is-none", "C14", (BASE, "        if not rootpath:\n", "        if rootpath is None:\n"))
-fault("c14-protocol-cached", "C14", "R14b", (PMUX, "        ptry = protocol(request, server, requesthandler, rfile, wfile, config)\n", "        ptry = protocol(request, server, requesthandler, rfile, wfile, config)\n        server.lastprotocol = ptry\n"))
+fault("c14-protocol-cached", "C14", "R14", (PMUX, "        ptry = protocol(request, server, requesthandler, rfile, wfile, config)\n", "        ptry = protocol(request, server, requesthandler, rfile, wfile, config)\n        server.lastprotocol = ptry\n"))
 fault("c14-header-cache-on-server", "C14", "R14b", (HTTP, "        self.requesthandler.pygopherd_http_slurped = self.httpheaders", "        self.server.pygopherd_http_slurped = self.httpheaders"))
 fault("c14-child-returns", "C14", "R14c", (SERVER, "                finally:\n                    os._exit(status)", "                finally:\n                    pass"))
 fault("c14-no-active-children", "C14", "R14c", (SERVER, "            self.active_children.add(pid)\n", ""))
